@@ -59,6 +59,10 @@ _BUILTINS: Dict[str, Callable[..., Any]] = {
     'any': any, 'all': all, 'sum': sum, 'abs': abs, 'int': int, 'bool': bool, 'reversed': reversed, 'zip': zip, 'iter': iter, 'next': next,
     'frozenset': frozenset, 'dict': dict, 'divmod': divmod, 'round': round, 'float': float, 'str': str, 'isinstance': None,   # type: ignore[dict-item]
 }
+_BUILTINS['filter'] = lambda fn, it: [x for x in it if (x if fn is None else fn(x))]
+import posixpath as _pp
+_PATH_FUNCS: Dict[str, Callable[..., Any]] = {'os.path.split': _pp.split, 'os.path.normpath': _pp.normpath, 'os.path.basename': _pp.basename, 'os.path.dirname': _pp.dirname,
+                                               'os.path.splitext': _pp.splitext, 'os.path.join': _pp.join, 'posixpath.split': _pp.split, 'posixpath.normpath': _pp.normpath}
 _SAFE_METHODS = {
     set: {'add', 'discard', 'remove', 'copy', 'union', 'difference', 'intersection', 'issubset', 'update', 'pop', 'clear', '__contains__'},
     frozenset: {'union', 'difference', 'intersection', 'issubset', 'copy'},
@@ -369,13 +373,20 @@ class MiniEval:
         if any(isinstance(a, ast.Starred) for a in n.args) or any(k.arg is None for k in n.keywords):
             raise Unsupported('star arguments')
         f = n.func
+        if isinstance(f, ast.Name) and f.id == 'isinstance' and 'isinstance' not in self.env:
+            # only against built-in value types, named directly
+            if len(n.args) == 2 and not n.keywords:
+                spec = n.args[1]
+                names = [x for x in (spec.elts if isinstance(spec, ast.Tuple) else [spec])]
+                types = {'str': str, 'bytes': bytes, 'int': int, 'float': float, 'bool': bool, 'tuple': tuple, 'list': list, 'dict': dict, 'set': set, 'frozenset': frozenset}
+                if all(isinstance(x, ast.Name) and x.id in types and x.id not in self.env for x in names):
+                    return isinstance(self.ev(n.args[0]), tuple(types[x.id] for x in names))     # type: ignore[union-attr]
+            raise Unsupported('isinstance')
         args = [self.ev(a) for a in n.args]
         kw = {k.arg: self.ev(k.value) for k in n.keywords}
         if isinstance(f, ast.Name):
             if f.id in self.funcs:
                 return self.inline(self.funcs[f.id], args, kw, None)
-            if f.id == 'isinstance':
-                raise Unsupported('isinstance')
             if f.id in _BUILTINS and f.id not in self.env:
                 if f.id == 'sorted' and 'key' in kw:
                     raise Unsupported('sorted with key')
@@ -387,6 +398,9 @@ class MiniEval:
         if isinstance(f, ast.Attribute):
             if ast.unparse(f) in ('itertools.count',):
                 return itertools.count(*args)
+            if ast.unparse(f) in _PATH_FUNCS and all(isinstance(a, str) for a in args) and not kw:
+                # pure string functions of the standard library, POSIX flavour (a model of the library, not code of the repository)
+                return _PATH_FUNCS[ast.unparse(f)](*args)
             if isinstance(f.value, ast.Name) and f.value.id == 'self' and f.attr in self.methods:
                 return self.inline(self.methods[f.attr], args, kw, self.env.get('self'))
             o = self.ev(f.value)
